@@ -63,7 +63,7 @@ def preload():
     import msdm.domains.cliffwalking, msdm.domains.tiger, msdm.domains.loadunload, msdm.domains.heavenorhell  # noqa
 
 
-ENVS = ('prior', 'midrun', 'midrun', 'reuse', 'warm', 'abort', 'unpatched', 'twin', 'nested', 'shared')
+ENVS = ('prior', 'midrun', 'midrun', 'reuse', 'warm', 'abort', 'unpatched', 'twin', 'nested', 'shared', 'again')
 
 
 def gen_case(rng, tier, idx):
@@ -238,7 +238,7 @@ def execute(case, script=None):
     comp = sc['component']
     ctx = RunCtx(PROP, None)
     ctx.CB_CAP = 10 ** 8
-    ctx.declare_probes('reference_ok', 'env_prior', 'env_midrun', 'env_reuse', 'env_warm', 'env_abort', 'env_unpatched', 'env_twin', 'env_nested', 'env_shared', 'nested_runs_delivered', 'injections',
+    ctx.declare_probes('reference_ok', 'env_prior', 'env_midrun', 'env_reuse', 'env_warm', 'env_abort', 'env_unpatched', 'env_twin', 'env_nested', 'env_shared', 'env_again', 'nested_runs_delivered', 'injections',
                        'aborts_delivered', 'seed_zero', 'string_keys', 'shipped_domain', 'equally_seeded_pairs')
     sched = Scheduler(case['sched']['seed'], mode='P', cap=10 ** 9)
     ctx.sched = sched
@@ -312,6 +312,26 @@ def execute(case, script=None):
                     raise
                 out, _, _ = _run(sc, ctx, sched)
                 compare(out, 'after-an-equal-keyed-twin-problem-in-the-same-process')
+            elif envname == 'again':
+                # the SAME problem object serves two seeded runs one after the other: first this scenario or another seeded
+                # component, then this scenario (fresh planner / learner objects); the model must come out as it went in
+                gset(13)
+                sched.fire('F5_same_model_object_again')
+                problem = S.build_problem(sc['problem'], ctx)
+                which = prng.randrange(2)
+                if which == 0 or sc['problem'].get('type') != 'mdp' or comp in ('rmax', 'semimdp'):
+                    scA = sc
+                else:
+                    scA = S.gen_scenario(_pyrandom.Random(f"again:{prng.getrandbits(40)}"), component=prng.choice(('lrtdp', 'laostar', 'qlearning', 'sarsa', 'rollout_mdp')))
+                    scA = dict(scA, problem=sc['problem'])
+                    if 'h' in scA['params']:
+                        scA['params']['h'] = S._upper_bound(sc['problem'])
+                try:
+                    _run(scA, ctx, sched, problem=problem)
+                except Violation:
+                    raise
+                out, _, _ = _run(sc, ctx, sched, problem=problem)
+                compare(out, 'same-model-object-used-by-an-earlier-seeded-run')
             elif envname == 'shared':
                 gset(12)
                 sched.fire('F10_shared_object')
